@@ -410,13 +410,10 @@ class Fn:
     def bind(self, env, name, text, ty):
         """let-bind a python variable; float kinds are materialised as their integer numerator"""
         if ty == "lin":
-            if text.is_const() and text.kind() != "Z":
-                env[name] = (text, "lin")      # float constant (length, tol, 0.5): stays symbolic
+            if text.is_const():
+                env[name] = (text, "lin")      # float constant (length, tol): stays symbolic
                 return ""
             kind = text.kind()
-            if text.is_const():
-                env[name] = (text, "lin")
-                return ""
             text, ty = text.text(kind), kind
         if ty in ("Z", "bool", "half", "r3half"):
             cn = self.local(name)
